@@ -265,30 +265,33 @@ macro_rules! entities {
         // The size expression is evaluated exactly once, so that every column has the same length
         // even if evaluating it has side effects.
         let n: usize = $n;
-        // SAFETY: Each `Vec` created here will be of length `n`.
+        // The caller's expressions are evaluated outside of the `unsafe` block, which must not
+        // lend itself to them.
+        let columns = ($crate::reexports::vec![$component; n], $crate::entities!(@cloned ($($components),*); n));
+        // SAFETY: Each `Vec` created here is of length `n`.
         unsafe {
-            $crate::entities::Batch::new_unchecked(
-                ($crate::reexports::vec![$component; n], $crate::entities!(@cloned ($($components),*); n))
-            )
+            $crate::entities::Batch::new_unchecked(columns)
         }
     }};
-    ($(($($components:expr),*)),+ $(,)?) => {
+    ($(($($components:expr),*)),+ $(,)?) => {{
+        // The caller's expressions are evaluated outside of the `unsafe` block, which must not
+        // lend itself to them.
+        let columns = $crate::entities!(@transpose [] $(($($components),*)),+);
+        let len = <[()]>::len(&[$($crate::entities!(@unit $($components),*)),+]);
         // SAFETY: During transposition, each column is guaranteed to have an equal number of
         // components, which is the number of entities given. That number is passed along, since it
         // can not be read off the columns of entities without components.
         unsafe {
-            $crate::entities::Batch::new_unchecked_with_len(
-                $crate::entities!(@transpose [] $(($($components),*)),+),
-                <[()]>::len(&[$($crate::entities!(@unit $($components),*)),+]),
-            )
+            $crate::entities::Batch::new_unchecked_with_len(columns, len)
         }
-    };
-    ((); $n:expr) => {
+    }};
+    ((); $n:expr) => {{
+        let len: usize = $n;
         // SAFETY: There are no columns to check.
         unsafe {
-            $crate::entities::Batch::new_unchecked_with_len($crate::entities::Null, $n)
+            $crate::entities::Batch::new_unchecked_with_len($crate::entities::Null, len)
         }
-    };
+    }};
     () => {
         // SAFETY: There are no columns to check.
         unsafe {
